@@ -992,7 +992,7 @@ DLLIMPORT cfg_value_t *cfg_setopt(cfg_t *cfg, cfg_opt_t *opt, const char *value)
 			}
 			errno = 0;
 			f = strtod(value, &endptr);
-			if (*endptr != '\0') {
+			if (*endptr != '\0' || endptr == value) {
 				cfg_error(cfg, _("invalid floating point value for option '%s'"), opt->name);
 				return NULL;
 			}
